@@ -498,7 +498,11 @@ def check_rows(ctx, sa, rows, keys, els, decoders, extra_objs, desc, cached, tex
                     where = [j for j in range(n) if want[j] == got]
                     kinds = sorted({els[j].kind for j in allowed})
                     carriers = allowed
-                    ctx.violation("dedupe-proxy-key-shadows-result-key" if shadowed(s, carriers, els) else
+                    # a *generated* result name (anonymous / truncated label) that equals a secondary name
+                    # (<table>_<col>, selected_columns key) of the column whose value came back: same root cause
+                    gen_shadowed = bool(keypos) and all(s not in els[j].names(strict=True) for j in keypos) and any(
+                        s in els[j].names() or (proxy_keys is not None and proxy_keys[j] == s) for j in where)
+                    ctx.violation("dedupe-proxy-key-shadows-result-key" if (shadowed(s, carriers, els) or gen_shadowed) else
                                   "unary-minus-registers-inner-column" if via_unary(carriers) else "string-key-foreign-value:" + "+".join(kinds) + (":text" if textual else ""),
                                   f"{tag}: _mapping[{s!r}] returned {got} = value of position {where}, but the name belongs to {carriers}",
                                   dict(desc, key=s, keys=list(keys)))
@@ -650,6 +654,10 @@ def star_expand_case(ctx, sa, tables, eng, seed, ll):
         keys = list(res.keys())
         rows = res.all()
     ctx.count("star_expand_statements")
+    try:
+        pkeys = set(stmt.selected_columns.keys())     # selected_columns keys: ambiguous by design when equal to a result name
+    except Exception:
+        pkeys = set()
     allels = els + expanded
     desc = {"how": "star_expand:" + form, "seed": seed, "label_length": ll, "style": style, "keys": keys,
             "sql": str(stmt.compile(dialect=eng.dialect))[:600]}
@@ -698,7 +706,7 @@ def star_expand_case(ctx, sa, tables, eng, seed, ll):
                 ctx.count("ambiguous_raised")
                 # (a cursor name that is also a secondary name - <table>_<col> - of a compiled column is
                 # ambiguous by design)
-                if len(pos) < 2 and not any(s in e.names() and keys[i] != s for i, e in enumerate(els)):
+                if len(pos) < 2 and not any(s in e.names() and keys[i] != s for i, e in enumerate(els)) and s not in pkeys:
                     ctx.violation("unambiguous-string-key-raised:star-expand", f"{s!r} is listed once by keys() but raised ambiguous", dict(desc, key=s))
                 continue
             except exc.NoSuchColumnError:
